@@ -432,6 +432,8 @@ impl Parser {
 
     pub fn unit(&mut self) -> PR<Unit> {
         let mut u = Unit::default();
+        // enclosing user namespaces: declarations inside get qualified names
+        let mut ns: Vec<String> = Vec::new();
         loop {
             let mut attrs = Vec::new();
             self.skip_attributes(&mut attrs)?;
@@ -442,19 +444,29 @@ impl Parser {
                 continue;
             }
             if self.is_id("namespace") {
-                // helper namespaces of the Metal prelude: skipped (their contents are part of the dialect table)
                 self.p += 1;
-                let _ = self.ident();
+                let ns_name = self.ident()?;
                 self.expect_p("{")?;
-                let mut depth = 1;
-                while depth > 0 {
-                    match self.next() {
-                        Tok::P("{") => depth += 1,
-                        Tok::P("}") => depth -= 1,
-                        Tok::Eof => return Err("unterminated namespace".into()),
-                        _ => {}
+                if ns_name == "helper" {
+                    // helper namespace of the Metal prelude: skipped (its contents are part of the dialect table)
+                    let mut depth = 1;
+                    while depth > 0 {
+                        match self.next() {
+                            Tok::P("{") => depth += 1,
+                            Tok::P("}") => depth -= 1,
+                            Tok::Eof => return Err("unterminated namespace".into()),
+                            _ => {}
+                        }
                     }
+                } else {
+                    ns.push(ns_name);
                 }
+                continue;
+            }
+            if !ns.is_empty() && self.is_p("}") {
+                // end of a user namespace (an optional trailing comment was removed by the lexer)
+                self.p += 1;
+                ns.pop();
                 continue;
             }
             if self.eat_id("enum") {
@@ -542,6 +554,7 @@ impl Parser {
             }
             let ty = self.parse_type()?;
             let name = self.ident()?;
+            let name = if ns.is_empty() { name } else { format!("{}::{}", ns.join("::"), name) };
             if self.is_p("(") {
                 let f = self.function(ty, name, is_template, attrs)?;
                 u.funcs.push(f);
